@@ -152,11 +152,16 @@ class Harness(object):
         library is re-initialised so that handle numbering and all in-memory state start afresh."""
         self.wipe()
         self.start()
+        self.serial_dir = {}
         for t in self.tokens:
             self.map_slots()
+            before = set(os.listdir(self.tokdir))
             rv = self.p.init_token(self.free_slot, self.pin(so), self.label_of(t))
             if rv:
                 raise RuntimeError("set-up C_InitToken: " + rvname(rv))
+            new = sorted(set(os.listdir(self.tokdir)) - before)
+            if len(new) == 1:
+                self.serial_dir[t] = new[0]          # the directory of this token (for faults injected from outside)
             if user is not None:
                 self.map_slots()
                 rv, s = self.p.open_session(self.slot[t], True)
